@@ -66,6 +66,15 @@ def emit_wcode():
     o.append("pub open spec fn wcode(s: Seq<char>) -> int decreases s.len() {")
     o.append("    if s.len() == 0 { 7 } else { wcode(s.drop_last()) * 131 + cval(s.last()) }")
     o.append("}")
+    o += ["/// no '-' at or after index i (evaluated on a word's spelling by the interpreter)",
+          "pub open spec fn no_dash_from(s: Seq<char>, i: int) -> bool decreases s.len() - i {",
+          "    if i < 0 || i >= s.len() { true } else { s[i] != '-' && no_dash_from(s, i + 1) }",
+          "}",
+          "pub proof fn lemma_no_dash(s: Seq<char>, i: int)",
+          "    requires no_dash_from(s, i), 0 <= i",
+          "    ensures forall|k: int| i <= k < s.len() ==> s[k] != '-', i == 0 ==> !s.contains('-')",
+          "    decreases s.len() - i",
+          "{ reveal(no_dash_from); if i < s.len() { lemma_no_dash(s, i + 1); } }"]
     open(os.path.join(T, "wcode.inc"), "w", encoding="utf-8").write("\n".join(o) + "\n")
 
 
@@ -126,7 +135,7 @@ def emit_model(c, arms, doc, extra_params="", ret="ApRes", default="err_res(o, E
 ARMS_CURRENT = []
 
 
-def emit_rows(c, rows, word_facts, row_stmt, nmod=8, props="C01, C04, C08, C16", row_params="o: DsView"):
+def emit_rows(c, rows, word_facts, row_stmt, nmod=8, props="C01, C04, C08, C16", row_params="o: DsView", row_extra=None):
     """rows: list of dicts with at least `word`,`desc`; word_facts(row) -> (ensures_text, [compute asserts]); row_stmt(row) -> ensures text"""
     inner = []
     names = [wname(r["word"]) for r in rows]
@@ -160,7 +169,7 @@ def emit_rows(c, rows, word_facts, row_stmt, nmod=8, props="C01, C04, C08, C16",
         b.append(f"    pub proof fn lemma_{c}_row_{rname(r)}({row_params})")
         b.append(f"        ensures {row_stmt(r)}")
         b.append("    {")
-        b.append(f"        {c}_ne_{wname(lw)}(); lemma_{c}_word_{k}(); reveal({c}_status);")
+        b.append(f"        {c}_ne_{wname(lw)}(); lemma_{c}_word_{k}(); reveal({c}_status);" + (" " + row_extra(r) if row_extra else ""))
         b.append("    }")
     o = []
     for k, r in enumerate(rows):
@@ -227,24 +236,66 @@ def english():
         l = lemma_of(w)
         ordf = l.endswith("th") or w in ("first", "second") or l == "third"
         kind = KIND[marker_of(w)]
-        ens = f"en_lemma({W(w)}) == {W(l)}, en_ord_form({W(w)}, {W(l)}) == {'true' if ordf else 'false'}, en_marker_kind({W(w)}) == {kind}"
-        asserts = [f"assert(en_lemma({W(w)}) =~= {W(l)}) by(compute_only);",
+        ens = f"en_lemma({W(w)}) == {W(l)}, en_ord_form({W(w)}, {W(l)}) == {'true' if ordf else 'false'}, en_marker_kind({W(w)}) == {kind}, no_dash_from({W(w)}, 0)"
+        asserts = [f"assert(no_dash_from({W(w)}, 0)) by(compute_only);", f"assert(en_lemma({W(w)}) =~= {W(l)}) by(compute_only);",
                    f"assert(en_ord_form({W(w)}, {W(l)}) == {'true' if ordf else 'false'}) by(compute_only);",
                    f"assert(en_marker_kind({W(w)}) == {kind}) by(compute_only);"]
         return ens, asserts, l
 
     rows.append({"word": ",", "instr": None, "marker": None, "expect": None, "desc": "a comma is never a number word (it ends the number in progress)"})
+    rows.append({"word": "and", "instr": None, "marker": None, "expect": None, "desc": "the conjunction: a link word once the number has two digits, not a number word otherwise"})
 
     def row_stmt(r):
         if r["word"] == ",":
             return f"!en_model({W(',')}, o).ok && !(en_model({W(',')}, o).err is Incomplete)"
-        return f"en_row({r['instr']}, {KIND[r['marker']]}, o, en_model({W(r['word'])}, o))"
+        if r["word"] == "and":
+            return f"en_model({W('and')}, o) == (if size_of(o) >= 2 {{ err_res(o, Error::Incomplete) }} else {{ err_res(o, Error::NaN) }}), !{W('and')}.contains('-')"
+        return f"en_row({r['instr']}, {KIND[r['marker']]}, o, en_model({W(r['word'])}, o)), !{W(r['word'])}.contains('-')"
     extra = ["seconds", "th", "ths", "first", "second", "third", "thirds", "st", "nd", "rd", "rds", "point", "-", ""]
     allwords = set(w for ws, _, _ in arms for w in ws) | set(r["word"] for r in rows) | set(lemma_of(r["word"]) for r in rows) | set(extra)
     ARMS_CURRENT[:] = arms
-    inner = emit_rows(c, rows, word_facts, row_stmt)
+    inner = emit_rows(c, rows, word_facts, row_stmt, row_extra=lambda r: f"lemma_no_dash({W(r['word'])}, 0);")
     emit_words(c, allwords, inner, arms)
     json.dump(rows, open(os.path.join(T, f"{c}_rows.json"), "w", encoding="utf-8"), ensure_ascii=False)
+    # dispatch lemmas for the spelling driver: the row of a word chosen by its digit(s)
+    modof = {r["word"]: k % 8 for k, r in enumerate(rows)}
+    d = ["// generated by tools/gen_lang.py: words of the English speller chosen by digit, with their grammar rows (used by en_driver.inc)"]
+
+    def sel(name, doc, ws, lo):
+        d.append(f"/// {doc}")
+        d.append(f"pub open spec fn {name}(d: int) -> Seq<char> {{ " + " else ".join(f"if d == {lo + i} {{ {W(w)} }}" for i, w in enumerate(ws[:-1])) + f" else {{ {W(ws[-1])} }} }}")
+    sel("en_unit_w", "cardinal word of the digit d in 1..9", [x[0] for x in u], 1)
+    sel("en_teen_w", "cardinal word of 10 + d, d in 0..9", [x[0] for x in teens], 0)
+    sel("en_tens_w", "cardinal word of 10 * d, d in 2..9", [x[0] for x in tens], 2)
+    sel("en_unit_ow", "ordinal word of the digit d in 1..9", [x[1] for x in u], 1)
+    sel("en_teen_ow", "ordinal word of 10 + d, d in 0..9", [x[1] for x in teens], 0)
+    sel("en_tens_ow", "ordinal word of 10 * d, d in 2..9", [x[1] for x in tens], 2)
+
+    def disp(name, fn, ws, lo, instr, kinds=None):
+        d.append(f"pub proof fn {name}(d: int, o: DsView)")
+        d.append(f"    requires {lo} <= d <= {lo + len(ws) - 1}")
+        if kinds is None:
+            d.append(f"    ensures en_row({instr}, 0, o, en_model({fn}(d), o)), !{fn}(d).contains('-')")
+        else:
+            d.append(f"    ensures en_row({instr}, en_ow_kind_{fn}(d), o, en_model({fn}(d), o)), !{fn}(d).contains('-')")
+        d.append("{")
+        for i, w in enumerate(ws):
+            d.append(f"    if d == {lo + i} {{ en_rows_{modof[w]}::lemma_en_row_{wname(w)}(o); }}")
+        d.append("}")
+    disp("lemma_en_unit", "en_unit_w", [x[0] for x in u], 1, "EnI::Unit((48 + d) as u8)")
+    disp("lemma_en_teen", "en_teen_w", [x[0] for x in teens], 0, "EnI::Two(49u8, (48 + d) as u8)")
+    disp("lemma_en_tens", "en_tens_w", [x[0] for x in tens], 2, "EnI::Two((48 + d) as u8, 48u8)")
+    d.append("pub open spec fn en_ow_kind_en_unit_ow(d: int) -> int { if d == 1 { 3 } else if d == 2 { 4 } else if d == 3 { 5 } else { 1 } }")
+    d.append("pub open spec fn en_ow_kind_en_teen_ow(d: int) -> int { 1 }")
+    d.append("pub open spec fn en_ow_kind_en_tens_ow(d: int) -> int { 1 }")
+    disp("lemma_en_unit_o", "en_unit_ow", [x[1] for x in u], 1, "EnI::Unit((48 + d) as u8)", kinds=True)
+    disp("lemma_en_teen_o", "en_teen_ow", [x[1] for x in teens], 0, "EnI::Two(49u8, (48 + d) as u8)", kinds=True)
+    disp("lemma_en_tens_o", "en_tens_ow", [x[1] for x in tens], 2, "EnI::Two((48 + d) as u8, 48u8)", kinds=True)
+    for cw, ow, k, base in scales:
+        d.append(f"pub proof fn lemma_en_scale_{cw}(o: DsView) ensures en_row(EnI::{k}, 0, o, en_model({W(cw)}, o)), !{W(cw)}.contains('-'), en_row(EnI::{k}, 1, o, en_model({W(ow)}, o)), !{W(ow)}.contains('-') {{ en_rows_{modof[cw]}::lemma_en_row_{wname(cw)}(o); en_rows_{modof[ow]}::lemma_en_row_{wname(ow)}(o); }}")
+    d.append(f"pub proof fn lemma_en_and(o: DsView) ensures en_model({W('and')}, o) == (if size_of(o) >= 2 {{ err_res(o, Error::Incomplete) }} else {{ err_res(o, Error::NaN) }}), !{W('and')}.contains('-') {{ en_rows_{modof['and']}::lemma_en_row_and(o); }}")
+    d.append(f"pub proof fn lemma_en_zero(o: DsView) ensures en_row(EnI::Zero, 0, o, en_model({W('zero')}, o)), !{W('zero')}.contains('-') {{ en_rows_{modof['zero']}::lemma_en_row_zero(o); }}")
+    open(os.path.join(T, "en_dispatch.inc"), "w", encoding="utf-8").write("\n".join(d) + "\n")
     print(c + ":", len(arms), "arms,", len(rows), "rows,", len(allwords), "words")
 
 
